@@ -213,10 +213,10 @@ def _image(k, seed):
 
 
 def api_job(job):
-    fam, lo, hi, seed = job
+    fam, lo, hi, seed = job[:4]
     acc = Acc()
-    for k in range(lo, hi):
-        es_len = None if (fam != "ES" or k < 8) else (k * 11) % 256
+    items = job[4] if len(job) > 4 else [(k, None if (fam != "ES" or k < 8) else (k * 11) % 256) for k in range(lo, hi)]
+    for k, es_len in items:
         inv, sim = make_target(fam, k, seed, es_len=es_len)
         case = {"path": "api", "family": fam, "image": k, "seed": seed, "es_len": es_len}
 
@@ -389,6 +389,11 @@ def run(ctx):
         "every" if not ctx.quick else "one instance of every"))
     na = ctx.pick(48, 600)
     ajobs = []
+    # ES: announced length and content class decoupled (boundary lengths x all 8 content classes, e.g. 255 bytes of 0xFF whose
+    # byte sum exceeds 16 bits)
+    es_lens = (0, 1, 2, 85, 86, 141, 142, 143, 200, 253, 254, 255)
+    for ln in es_lens:
+        ajobs.append(("ES", 0, 0, ctx.seed, [(8 * (1 + ln % 3) + style, ln) for style in range(8)]))
     for fam in ("ET", "DT", "ES"):
         step = max(1, na // 5)
         for lo in range(0, na, step):
